@@ -258,7 +258,17 @@ SEV_HANDLER(ccont)
 // {"op":"exprops","a":recipe,"b":recipe}: Expression operators against the core functions: r.same = {add, sub, mul, div, neg, eq, ...}
 SEV_HANDLER(exprops)
 {
-    RCP<const Basic> a = build(c.at("a")), b = build(c.at("b"));
+    RCP<const Basic> a, b;
+    // (an operand the library refuses to construct, tan(zoo), decides nothing)
+    std::string bexc = guarded([&] {
+        a = build(c.at("a"));
+        b = build(c.at("b"));
+    });
+    r.set("bexc", bexc);
+    if (!bexc.empty() && bexc != "VerifAssertionError")
+        return;
+    if (!bexc.empty())
+        throw VerifAssertionError(__FILE__, __LINE__, "operand construction");
     Expression A(a), Bx(b);
     J o = J::obj();
     auto put = [&](const char *name, std::function<bool()> f) {
